@@ -76,6 +76,10 @@ def run(ctx) -> None:
     for dev in concrete_devices(ctx):
         ctx.reuse("C04.pairing", c06.wiring, dev)
         ctx.reuse("C04.pairing", c06.iteration_space, dev)
+        # ... and a step is left out only when its volume is not positive (not when it rounds to 0.00)
+        from . import c07 as _c07
+
+        ctx.reuse("C04.pairing", _c07.step_block, dev)
 
 
 def _loop_param_seq(fv, seq: ast.AST) -> Optional[str]:
@@ -352,6 +356,14 @@ def pairing_family(ctx) -> None:
             term = fv.res.resolve(expr, nid)
             base = strip_norm(term)
             if not (isinstance(base, ast.Name) and base.id in f.params):
+                scaled = [x for x in ast.walk(term) if isinstance(x, ast.BinOp) and isinstance(x.op, ast.Mult)
+                          and any(call_fname(s_) == "len" for s_ in (x.left, x.right))
+                          and any(not isinstance(s_, (ast.List, ast.Tuple)) and any(isinstance(y, ast.Call) and call_fname(y) in ("array", "asarray", "atleast_1d", "flatten", "ravel") for y in ast.walk(s_))
+                                  for s_ in (x.left, x.right) if call_fname(s_) != "len")]
+                if scaled:
+                    ctx.rep.refuted(rule, f"{f.qualname}/{what}", f"the single volume is 'broadcast' with `{show(scaled[0])[:70]}`: `*` on a numpy array multiplies its values (it repeats only a "
+                                    "list) - every well is booked with n times the volume", where=f.where(expr))
+                    continue
                 if has_unknown(base):
                     ctx.rep.inconclusive(rule, f"{f.qualname}/{what}", f"origin of the paired sequence unknown: {show(term)[:80]}", where=f.where(expr))
                 else:
